@@ -261,12 +261,16 @@ FamC10(dummy) ==
 
 \* operator x operand form matrix: every operator with a call-expression and with a block operand, in all eight kinds
 OpsC11 == {"map", "and_then", "or_else", "map_err", "then", "inspect"}
+BlockInit(b) == "block"
 StepC10m(op, form, b, k) ==
   <<Item(IdOf(b, k, 1), "and_then", "closure", <<>>), Item(IdOf(b, k, 2), op, form, <<>>), Item(IdOf(b, k, 3), "map", "closure", <<>>)>>
 FamC10m(dummy) ==
   UNION {{Run(P, pl, {}) : pl \in {<<>>} \cup {<<F(x)>> : x \in ItemIds(P, {"and_then"})}} :
          P \in {LET S(b, k) == StepC10m(op, form, b, k) IN Build(kd, "res", pr, S, NoName, ExprInit, "none") :
                   kd \in Kinds8, op \in OpsC11, form \in {"call", "block"}, pr \in {<<1>>, <<2, 1>>}}
+               \* three branches whose initial values are blocks too: every (branch, position) pair of captures has a mirrored one
+               \cup {LET S(b, k) == StepC10m(op, "block", b, k) IN Build(kd, "res", <<1, 1, 1>>, S, NoName, BlockInit, "none") :
+                       kd \in Kinds8, op \in OpsC11}
                \* two callee-first operands in one step (`-> f() ?? g() -> h()`): the later one is evaluated first
                \cup {LET S(b, k) == <<Item(IdOf(b, k, 1), "then", "call", <<>>), Item(IdOf(b, k, 2), "inspect", "call", <<>>),
                                        Item(IdOf(b, k, 3), "map", "call", <<>>), Item(IdOf(b, k, 4), "then", "call", <<>>)>>
@@ -391,8 +395,11 @@ ProgBig(kind, nb, depth, per, h) ==
   Prog(kind, "res",
        [i \in 1 .. nb |->
           BranchBig(i - 1, [k \in 1 .. depth |->
-                              [j \in 1 .. per |-> Item(IdBig(i - 1, k - 1, j), IF j % 2 = 0 THEN "and_then" ELSE "map",
-                                                       IF j % 3 = 0 THEN "call" ELSE "block", <<>>)]])], h)
+                              \* all operator classes take their turn (the error-side operators go through their own generator arm)
+                              [j \in 1 .. per |-> Item(IdBig(i - 1, k - 1, j),
+                                                       CASE j % 6 = 0 -> "and_then" [] j % 6 = 1 -> "map" [] j % 6 = 2 -> "or_else"
+                                                         [] j % 6 = 3 -> "map_err" [] j % 6 = 4 -> "and_then" [] OTHER -> "inspect",
+                                                       IF j % 4 = 0 THEN "call" ELSE "block", <<>>)]])], h)
 FamC17(dummy) ==
   {Run(P, <<>>, {}) :
      P \in {ProgBig(kd, sh[1], sh[2], sh[3], IF sh[1] < 13 THEN DefaultHandler(kd) ELSE "none") :
